@@ -1,7 +1,7 @@
 """C14 - compilation results do not depend on history or on earlier failures (engine H)."""
 from __future__ import annotations
 
-from hist_common import COMPILE_OPS, FMTS, SUB_CALLERS, SUB_CATALOGUE, HistEngine
+from hist_common import COMPILE_OPS, FMTS, STMT_TWINS, SUB_CALLERS, SUB_CATALOGUE, HistEngine
 from sim import gen_beh, norm
 from sim.core import Chooser, EventLog, Violation, stable_hash
 
@@ -28,7 +28,7 @@ class EngineC14(HistEngine):
         used_names: set[str] = set()
         for _ in range(n):
             k = ch.weighted([("insn", 10), ("stmt", w_stmt), ("fresh", w_fresh), ("fresh2", w_fresh // 2), ("new", w_new if len(insts) < 3 else 0),
-                             ("add_sub", 1), ("parse_err", fail_w // 2), ("load", 1), ("loaded_insn", 2)], "opkind")
+                             ("add_sub", 1), ("parse_err", fail_w // 2), ("load", 1), ("loaded_insn", 2), ("twins", 1)], "opkind")
             if k == "new":
                 fmt = ch.choice(FMTS, "newfmt")
                 ops.append({"op": "new_compiler", "fmt": fmt})
@@ -48,6 +48,13 @@ class EngineC14(HistEngine):
                                 "code": ch.choice(callers, "ca"), "fmt": insts[0]})
                 if s["name"] != "vf_bad" and s["name"] not in subs:
                     subs.append(s["name"])
+                continue
+            if k == "twins":
+                a, b = ch.choice(STMT_TWINS, "twin")
+                if ch.chance(1, 2, "twin-order"):
+                    a, b = b, a
+                ops.append({"op": "stmt", "inst": inst, "code": a})
+                ops.append({"op": "stmt", "inst": inst, "code": b})
                 continue
             if k == "load":
                 ops.append({"op": "load", "inst": inst})
@@ -95,6 +102,8 @@ class EngineC14(HistEngine):
                 rname, rparts, rfmt = vname, parts, insts[inst]
             if ch.chance(p_fault, 10, "fault?"):
                 op["fault"] = self.gen_fault(ch, rfmt, rname, rparts, tuple(subs))
+            if ch.chance(1, 8, "thread"):
+                op["thread"] = True      # the call runs on another (joined) thread of the same process
             ops.append(op)
         return {"fmt0": fmt0, "ops": ops}
 
